@@ -98,6 +98,7 @@ type hnode struct {
 	min, max int // -2 = omitted
 	target   bool
 	ncols    int
+	unnamed  bool // csv2 / fixedlength2: the name is optional
 	kids     []*hnode
 }
 
@@ -107,6 +108,9 @@ func genHier(r *vh.Rng, depth int, counter *int, edi bool) []*hnode {
 	for i := 0; i < n; i++ {
 		*counter++
 		h := &hnode{name: fmt.Sprintf("%s%d", r.PickStr("R", "S", "H"), *counter), min: -2, max: -2, ncols: r.Between(0, 3)}
+		if !edi && r.Chance(0.15) {
+			h.unnamed = true
+		}
 		if r.Chance(0.6) {
 			h.min = r.Between(0, 2)
 		}
@@ -159,6 +163,9 @@ func renderCSV2(hs []*hnode) []interface{} {
 	var out []interface{}
 	for _, h := range hs {
 		m := map[string]interface{}{"name": h.name}
+		if h.unnamed {
+			delete(m, "name")
+		}
 		occ(m, h)
 		if h.group {
 			m["type"] = "record_group"
@@ -199,6 +206,9 @@ func renderFixed2(hs []*hnode) []interface{} {
 	var out []interface{}
 	for _, h := range hs {
 		m := map[string]interface{}{"name": h.name}
+		if h.unnamed {
+			delete(m, "name")
+		}
 		occ(m, h)
 		if h.group {
 			m["type"] = "envelope_group"
@@ -379,6 +389,13 @@ func settings(format string) map[string]interface{} {
 
 func markTarget(r *vh.Rng, hs []*hnode) *hnode {
 	all := flatten(hs)
+	if r.Chance(0.07) {
+		for _, h := range all {
+			if r.Chance(0.5) {
+				h.target = true
+			}
+		}
+	}
 	if r.Chance(0.8) {
 		t := all[r.Pick(len(all))]
 		t.target = true
